@@ -30,7 +30,7 @@ def _write_replay(prop, sub, tier, seed, v, point):
         "case": core.jsonable(case),
     }
     h = core.sig_hash([prop, sub, v["tags"], doc["case"]])
-    d = os.path.join(core.HERE, "replays")
+    d = os.environ.get("VERIF_REPLAY_DIR") or os.path.join(core.HERE, "replays")
     os.makedirs(d, exist_ok=True)
     path = os.path.join(d, "%s-%s.json" % (prop, h))
     with open(path, "w") as f:
@@ -233,8 +233,9 @@ def main(argv):
             assumptions=list(getattr(mod, "ASSUMPTIONS", [])),
             wall_s=round(timer(), 2), violations=len(new),
         )
-        os.makedirs(os.path.join(core.HERE, "evidence"), exist_ok=True)
-        with open(os.path.join(core.HERE, "evidence", "%s.json" % prop), "w") as f:
+        evdir = os.environ.get("VERIF_EVIDENCE_DIR") or os.path.join(core.HERE, "evidence")
+        os.makedirs(evdir, exist_ok=True)
+        with open(os.path.join(evdir, "%s.json" % prop), "w") as f:
             json.dump(ev, f, indent=1, sort_keys=True)
     if not a.quiet:
         print("[%s] tier=%s seed=%d evaluations=%d nontrivial=%d states=%d transitions=%d "
